@@ -546,7 +546,7 @@ func (m *Variant) set(v interface{}) error {
 // todo(fs): this should probably be StringValue or we need to handle all types
 // todo(fs): and recursion
 func (m *Variant) String() string {
-	if m.ArrayLength() > 0 {
+	if m.Has(VariantArrayValues) {
 		return ""
 	}
 
@@ -568,7 +568,7 @@ func (m *Variant) String() string {
 
 // Bool returns the boolean value if the type is Boolean.
 func (m *Variant) Bool() bool {
-	if m.ArrayLength() > 0 {
+	if m.Has(VariantArrayValues) {
 		return false
 	}
 
@@ -582,7 +582,7 @@ func (m *Variant) Bool() bool {
 
 // Float returns the float value if the type is one of the float types.
 func (m *Variant) Float() float64 {
-	if m.ArrayLength() > 0 {
+	if m.Has(VariantArrayValues) {
 		return 0
 	}
 
@@ -598,7 +598,7 @@ func (m *Variant) Float() float64 {
 
 // Int returns the int value if the type is one of the int types.
 func (m *Variant) Int() int64 {
-	if m.ArrayLength() > 0 {
+	if m.Has(VariantArrayValues) {
 		return 0
 	}
 
@@ -618,7 +618,7 @@ func (m *Variant) Int() int64 {
 
 // Uint returns the uint value if the type is one of the uint types.
 func (m *Variant) Uint() uint64 {
-	if m.ArrayLength() > 0 {
+	if m.Has(VariantArrayValues) {
 		return 0
 	}
 
@@ -653,7 +653,7 @@ func (m *Variant) ByteArray() ByteArray {
 }
 
 func (m *Variant) ByteString() []byte {
-	if m.ArrayLength() > 0 {
+	if m.Has(VariantArrayValues) {
 		return nil
 	}
 
@@ -666,7 +666,7 @@ func (m *Variant) ByteString() []byte {
 }
 
 func (m *Variant) DataValue() *DataValue {
-	if m.ArrayLength() > 0 {
+	if m.Has(VariantArrayValues) {
 		return nil
 	}
 
@@ -679,7 +679,7 @@ func (m *Variant) DataValue() *DataValue {
 }
 
 func (m *Variant) DiagnosticInfo() *DiagnosticInfo {
-	if m.ArrayLength() > 0 {
+	if m.Has(VariantArrayValues) {
 		return nil
 	}
 
@@ -692,7 +692,7 @@ func (m *Variant) DiagnosticInfo() *DiagnosticInfo {
 }
 
 func (m *Variant) ExpandedNodeID() *ExpandedNodeID {
-	if m.ArrayLength() > 0 {
+	if m.Has(VariantArrayValues) {
 		return nil
 	}
 
@@ -705,7 +705,7 @@ func (m *Variant) ExpandedNodeID() *ExpandedNodeID {
 }
 
 func (m *Variant) ExtensionObject() *ExtensionObject {
-	if m.ArrayLength() > 0 {
+	if m.Has(VariantArrayValues) {
 		return nil
 	}
 
@@ -718,7 +718,7 @@ func (m *Variant) ExtensionObject() *ExtensionObject {
 }
 
 func (m *Variant) GUID() *GUID {
-	if m.ArrayLength() > 0 {
+	if m.Has(VariantArrayValues) {
 		return nil
 	}
 
@@ -731,7 +731,7 @@ func (m *Variant) GUID() *GUID {
 }
 
 func (m *Variant) LocalizedText() *LocalizedText {
-	if m.ArrayLength() > 0 {
+	if m.Has(VariantArrayValues) {
 		return nil
 	}
 
@@ -744,7 +744,7 @@ func (m *Variant) LocalizedText() *LocalizedText {
 }
 
 func (m *Variant) NodeID() *NodeID {
-	if m.ArrayLength() > 0 {
+	if m.Has(VariantArrayValues) {
 		return nil
 	}
 
@@ -759,7 +759,7 @@ func (m *Variant) NodeID() *NodeID {
 }
 
 func (m *Variant) QualifiedName() *QualifiedName {
-	if m.ArrayLength() > 0 {
+	if m.Has(VariantArrayValues) {
 		return nil
 	}
 
@@ -772,7 +772,7 @@ func (m *Variant) QualifiedName() *QualifiedName {
 }
 
 func (m *Variant) StatusCode() StatusCode {
-	if m.ArrayLength() > 0 {
+	if m.Has(VariantArrayValues) {
 		return StatusBadTypeMismatch
 	}
 
@@ -786,7 +786,7 @@ func (m *Variant) StatusCode() StatusCode {
 
 // Time returns the time value if the type is DateTime.
 func (m *Variant) Time() time.Time {
-	if m.ArrayLength() > 0 {
+	if m.Has(VariantArrayValues) {
 		return time.Time{}
 	}
 
@@ -799,7 +799,7 @@ func (m *Variant) Time() time.Time {
 }
 
 func (m *Variant) Variant() *Variant {
-	if m.ArrayLength() > 0 {
+	if m.Has(VariantArrayValues) {
 		return nil
 	}
 	switch m.Type() {
@@ -811,7 +811,7 @@ func (m *Variant) Variant() *Variant {
 }
 
 func (m *Variant) XMLElement() XMLElement {
-	if m.ArrayLength() > 0 {
+	if m.Has(VariantArrayValues) {
 		return ""
 	}
 
